@@ -123,6 +123,7 @@ impl Prop for C16 {
             "plain_488_device_stb",
             "plain_488_mss_from_esb_only",
             "response_buffer_exhausted_at_terminator",
+            "stb_on_interface_without_mav_after_a_response",
         ];
         v.into_iter().map(String::from).collect()
     }
@@ -139,6 +140,8 @@ impl Prop for C16 {
             tree,
             // one run in six: a plain IEEE 488.2 device that keeps the trait's default stb()
             plain488: rng.chance(1, 6),
+            // one run in eight: an interface without MAV support (Context reused, mav untouched)
+            no_mav: rng.chance(1, 8),
         };
         let mut t = base_trace("C16", seed, run, "history", cfg.clone());
         let tc = TreeCtx::new(&cfg.tree);
@@ -395,6 +398,11 @@ impl StepHandler for H16 {
                         if was != now {
                             stats.probe("esb_toggled_by_ese_write");
                         }
+                    }
+                }
+                Contrib::Stb if *ui == 0 && before.no_mav => {
+                    if before.outq.iter().any(|x| *x) {
+                        stats.probe("stb_on_interface_without_mav_after_a_response");
                     }
                 }
                 Contrib::Stb if *ui == 0 && before.plain488 => {
